@@ -582,3 +582,30 @@ func init() {
 		Explain:     "Search on struct/pointer/typed-slice documents vs Search on the equivalent generic JSON image; every built-in applied to typed slices must not panic",
 	}
 }
+
+func init() {
+	redirect := map[string]string{
+		"flag.Bool": "jpgo.verifFlagBool", "flag.String": "jpgo.verifFlagString", "flag.Parse": "jpgo.verifFlagParse", "flag.Args": "jpgo.verifFlagArgs",
+		"flag.PrintDefaults": "jpgo.verifFlagPrintDefaults", "fmt.Fprintf": "jpgo.verifFprintf", "fmt.Fprintln": "jpgo.verifFprintln",
+		"fmt.Println": "jpgo.verifPrintln", "fmt.Printf": "jpgo.verifPrintf", "io/ioutil.ReadFile": "jpgo.verifReadFile", "io/ioutil.ReadAll": "jpgo.verifReadAll",
+		"os.ReadFile": "jpgo.verifReadFile", "io.ReadAll": "jpgo.verifReadAll",
+		"encoding/json.Unmarshal": "jpgo.verifUnmarshal", "(*github.com/jmespath/go-jmespath.Parser).Parse": "jpgo.verifParserParse",
+		"github.com/jmespath/go-jmespath.Search": "jpgo.verifLibSearch",
+	}
+	specs["C19"] = &CheckSpec{Prop: "C19", Level: "model_checking", Panics: true,
+		Jobs: func(tier string) []*Job {
+			j := jobOf("jpgo.VerifRun", []string{"C19"})
+			j.Redirect = redirect
+			j.WitEvery = 1
+			j.W, j.S = 1, 1
+			return []*Job{j}
+		},
+		Bounds: func(tier string) map[string]interface{} {
+			return map[string]interface{}{"scenarios": "every combination of: 0/1/2 positional arguments, -input given or not, read failure, invalid JSON, parse failure (SyntaxError or other), evaluation error; the document and the Search result are arbitrary (lazy) JSON values", "ast_flag": "off (the property is about searching)"}
+		},
+		Assumptions: []string{"the environment of run() is replaced by stubs: flag.*, ioutil.ReadFile/ReadAll, json.Unmarshal, Parser.Parse, jmespath.Search, json.MarshalIndent, fmt.Print*/Fprint* (each answers as the scenario dictates)",
+			"native confirmation realises each scenario with real arguments, a real file or stdin, and captures the real stdout/stderr of run()", "json.MarshalIndent does not fail on JSON values"},
+		Outside: []string{"the operating-system process (os.Exit is passed run()'s value by main, read from the source)", "flag's own parsing", "partial writes / closed stdout"},
+		Explain: "symbolic execution of cmd/jpgo.run() over all environment outcomes: exit status 0 iff nothing failed, then stdout is exactly one line, the serialisation of the value the library's Search returned; otherwise nothing on stdout and a non-zero status",
+	}
+}
